@@ -26,6 +26,8 @@ pub struct ConcCfg {
     pub missing_dirs: bool,
     pub preexisting: bool,
     pub clock_small: bool,
+    /// sampled I/O faults on library calls in a third of the runs
+    pub sampled_faults: bool,
 }
 
 #[derive(Clone, Debug)]
@@ -225,6 +227,24 @@ pub fn run_conc(tape: &mut Tape, cfg: &ConcCfg, detail: bool) -> ConcRun {
         }
         st.sched.max_steps = 60_000;
     }
+    let mut fault_rate = 0u64;
+    if cfg.sampled_faults && w.draw(3) == 0 {
+        fault_rate = [10u64, 25, 50][w.draw(3) as usize];
+        let rate = fault_rate;
+        w.sim.lock().injector = Some(Box::new(move |info, t| {
+            if !info.lib || !t.chance(rate) {
+                return None;
+            }
+            let creating = matches!(info.kind, k::K::OpenTmp) || (info.kind == k::K::Open && info.arg & k::O_CREATE != 0);
+            let es = errnos_for(info.kind, creating);
+            if es.is_empty() {
+                None
+            } else {
+                Some(es[t.draw(es.len() as u64) as usize])
+            }
+        }));
+    }
+    desc.push(format!("sampled_fault_rate_permille={}", fault_rate));
     desc.push(format!("participants={} shared_handle={} adversary={} fire={:?} stay={} stale_mode={} freeze={:?} crash={:?}", nparts, shared, adversary, fire, stay, w.sim.lock().stale_mode, frozen_at, crashed_proc));
     for (p, prog) in programs.iter().enumerate() {
         desc.push(format!("P{} (proc {}): {:?}", p, part_proc[p], prog));
@@ -333,6 +353,9 @@ pub fn run_conc(tape: &mut Tape, cfg: &ConcCfg, detail: bool) -> ConcRun {
         if st.stale_fired > 0 {
             faults.push(("fault:estale_for_enoent".to_string(), st.stale_fired));
         }
+        for ((kind, e), n) in st.faults_fired.iter() {
+            faults.push((format!("fault:{:?}/{}", kind, errno_name(*e)), *n));
+        }
         (st.step, st.fs.now - st.sim_start, st.switches, faults)
     };
     // give the tape back
@@ -340,6 +363,7 @@ pub fn run_conc(tape: &mut Tape, cfg: &ConcCfg, detail: bool) -> ConcRun {
         let mut st = w.sim.lock();
         *tape = std::mem::replace(&mut st.tape, Tape::replay(Vec::new()));
         st.observer = None;
+        st.injector = None;
     }
     let _ = detail;
     let adversary_unlinks = *adv_count.lock().unwrap();
